@@ -689,6 +689,10 @@ pub enum Policy {
     RoundRobin,
     RunToCompletion,
     Bursts,
+    /// task 0 advances one step, then the other tasks advance exactly G steps
+    /// between them, G drawn around powers of two (254..257, 511, 512, ...):
+    /// for state that is keyed by a wrapping counter or generation stamp
+    Gaps,
 }
 
 pub const POLICIES: [Policy; 5] = [
@@ -730,6 +734,7 @@ pub fn schedule(world: &mut World, rng: &mut Rng, cfg: &SchedCfg) {
         }
     }
     let mut rr = 0usize;
+    let mut gap_left = 0u64;
     let mut burst_task: Option<usize> = None;
     let mut burst_left = 0u64;
     let mut crashes = 0u64;
@@ -743,6 +748,18 @@ pub fn schedule(world: &mut World, rng: &mut Rng, cfg: &SchedCfg) {
     while !runnable.is_empty() && world.steps_done < cfg.max_steps && attempts < cfg.max_steps * 2 {
         attempts += 1;
         let ti = match cfg.policy {
+            Policy::Gaps => {
+                if gap_left == 0 || runnable.iter().all(|i| *i == 0) {
+                    // the victim's turn (or only it is left)
+                    gap_left = *rng.pick(&[1u64, 2, 15, 16, 63, 64, 127, 128, 254, 255, 255, 256, 256, 257, 511, 512, 767, 1023, 1024]);
+                    if runnable.contains(&0) { 0 } else { *runnable.iter().find(|i| **i != 0).unwrap() }
+                } else {
+                    gap_left -= 1;
+                    let others: Vec<usize> = runnable.iter().cloned().filter(|i| *i != 0).collect();
+                    rr += 1;
+                    others[rr % others.len()]
+                }
+            }
             Policy::Uniform => *rng.pick(&runnable),
             Policy::Pct => {
                 if change_points.contains(&world.steps_done) {
